@@ -75,6 +75,13 @@ Definition setitem_h (h : heap) (o : nat) (index : nat) (value : nat) : res heap
   | 1 => Ok (set_obj h o (mk_cell (c_shape (obj h o)) (c_w (obj h o)) value))
   | _ => Err
   end.
+(* a __setitem__ that refreshes the cached shape from the new contents (not the current source; selected by the harness if the
+   source's CPTensor.__setitem__ is seen to assign self.shape / re-validate) *)
+Definition setitem_refresh_h (h : heap) (o : nat) (index : nat) (value : nat) : res heap :=
+  match setitem_h h o index value with
+  | Ok h1 => Ok (set_obj h1 o (mk_cell (cp_shape (read_fs h1 (lst h1 (c_fs (obj h1 o))))) (c_w (obj h1 o)) (c_fs (obj h1 o))))
+  | Err => Err
+  end.
 Definition cache_consistent (h : heap) (o : nat) : Prop := c_shape (obj h o) = cp_shape (read_fs h (lst h (c_fs (obj h o)))).
 
 (* ------------------------------------------------------------------ entry points that build every array of their answer afresh
